@@ -1,12 +1,121 @@
 /-
-ArtModel.Ops.Dual — protocol handler(s) for the `dual` operation family.
+ArtModel.Ops.Dual — protocol handler for the `dual` operation family (C13).
 Core Lean only.  `none` = malformed line (the driver prints `bad-op`).
+
+Line format (table-driven, like `hist base tab`; all numbers are IEEE doubles as
+16 hex digits, compared through their sign-magnitude keys):
+
+    dual MODE EPS RHO RHOLB INV VETOTAB STEPS # call # call …
+
+  MODE     MT+ | MT- | MT0 | MT1 | MT~
+  EPS      epsilon of match tracking
+  RHO      the base module's configured (upper) vigilance
+  RHOLB    rho_lower_bound
+  INV      1 if the base module's vigilance test is inverted (BayesianART:
+           `rho op M`), else 0.  Match tracking is the wrapper's own,
+           non-inverted rule in both cases (`rho := M + eps` for MT+ …).
+  VETOTAB  rows joined by `|`, one per entry of STEPS (same index), each a
+           string of 0/1 indexed by CLUSTER LABEL: 1 = the caller's reset
+           function vetoes that cluster for that sample; `-` = no reset function.
+           A missing row / column means "not vetoed".
+  STEPS    table steps joined by `;`, each `T/M` as in `hist base tab`:
+           `T` = comma-joined activations (`nan` allowed), `M` = comma-joined match
+           values (`?` = never computed by the implementation).
+  call     `fit XS` | `pfit XS` | `pred XS`, `XS` = comma-joined `i:ncat` with `i`
+           the index into STEPS and `ncat` the number of categories before the step.
+
+Output: one field group per call, joined by ` # `:
+
+    fit/pfit:  labels=… map=… k=<n_clusters> cnt=… nW=<|W|> n=<sample_counter_> ev=…
+               `ev` has one event per sample of the call: `f` first category,
+               `a<c>` category c absorbed the sample, `s<c>` a category was spawned
+               under c's cluster label, `n` new category with a new cluster label.
+    pred:      pred=…            (`-` where the model has no answer)
+
+`unrecorded-match` replaces the whole output when the model visits a category
+whose match value the implementation never computed (model and code diverged).
 -/
 import ArtModel.Driver
+import ArtModel.DualVig
 
 namespace Art.Ops
 
+open Art.Drv
+
+/-- scalar configuration of `DualVigilanceART`: the base module's test
+(possibly inverted), the wrapper's own non-inverted tracking -/
+def dualCfg (mode : MT) (inv : Bool) (eps : Float) : SearchCfg (List Int) Int :=
+  { passes := fun th m => match m with
+      | [v] => passesScalar mode inv th v
+      | _ => false
+    track := fun th m => match m with
+      | [v] => trackScalar mode (adjKey eps true) (adjKey eps false) infKey th v
+      | _ => th
+    keep := mode != .one
+    tilde := false }
+
+def keyPos : Int → Bool := posOf (0 : Int)
+
+def showEvent : Option DualOutcome → String
+  | none => "f"
+  | some (.absorb c) => s!"a{c}"
+  | some (.spawn c) => s!"s{c}"
+  | some .fresh => "n"
+
+def showDual (s : DualState Nat) (ev : List String) : String :=
+  s!"labels={showNats s.base.labels} map={showNats s.map} k={nClusters s.map} cnt={showNats s.base.cnt} nW={s.base.W.length} n={s.base.n} ev={if ev.isEmpty then "-" else ",".intercalate ev}"
+
+/-- train on the samples of one call; returns the state, the events and whether
+a visited category had no recorded match value -/
+def dualRunBatch (tab : List TabStep) (cfg : SearchCfg (List Int) Int) (rho lb : Int)
+    (veto : DualState Nat → Nat × Nat → Nat → Bool) :
+    DualState Nat → List (Nat × Nat) → DualState Nat × List String × Bool
+  | s, [] => (s, [], false)
+  | s, x :: xs =>
+    let K := tabKernel tab
+    let dec := dualDecide K cfg rho lb keyPos (veto s x) s x
+    let bad := if s.base.W.isEmpty then false else
+      (dualStepSearch K cfg rho lb keyPos (veto s x) s x).visits.any (fun v =>
+        (((tab[x.1]?).bind (fun st => (st.M[v.c]?).join))).isNone)
+    let s' := dualTrainStep K cfg rho lb keyPos veto s x
+    let (sf, ev, b) := dualRunBatch tab cfg rho lb veto s' xs
+    (sf, showEvent dec :: ev, bad || b)
+
+def dualRun (tab : List TabStep) (cfg : SearchCfg (List Int) Int) (rho lb : Int)
+    (vt : List (List Bool)) : DualState Nat → List (Call (Nat × Nat)) → List String × Bool
+  | _, [] => ([], false)
+  | s, c :: cs =>
+    let veto : DualState Nat → Nat × Nat → Nat → Bool := fun _ x l => ((vt[x.1]?).getD []).getD l false
+    match c with
+    | .fit xs _ =>
+      let (s', ev, b) := dualRunBatch tab cfg rho lb veto (dualReset s) xs
+      let (out, b') := dualRun tab cfg rho lb vt s' cs
+      (showDual s' ev :: out, b || b')
+    | .pfit xs _ =>
+      let (s', ev, b) := dualRunBatch tab cfg rho lb veto s xs
+      let (out, b') := dualRun tab cfg rho lb vt s' cs
+      (showDual s' ev :: out, b || b')
+    | .pred xs =>
+      let (out, b') := dualRun tab cfg rho lb vt s cs
+      (("pred=" ++ showOptNats (dualPredict (tabKernel tab) s xs)) :: out, b')
+
 /-- handler for lines starting with `dual `; `a` = the remaining space-separated fields -/
-def dual (_a : List String) : Option String := none
+def dual (a : List String) : Option String := do
+  match (" ".intercalate a).splitOn " # " with
+  | [] => none
+  | hd :: callStrs =>
+    match hd.splitOn " " with
+    | [mode, eps, rho, lb, inv, vt, steps] =>
+      let mode ← parseMT mode
+      let eps ← parseFloatBits eps
+      let rho ← (parseKey rho).join
+      let lb ← (parseKey lb).join
+      let inv ← parseBool inv
+      let vt ← parseVetoTab vt
+      let tab ← (splitList steps ";").mapM parseTabStep
+      let calls ← callStrs.mapM (parseCall parseTabXs)
+      let (out, bad) := dualRun tab (dualCfg mode inv eps) rho lb vt {} calls
+      if bad then some "unrecorded-match" else some (" # ".intercalate out)
+    | _ => none
 
 end Art.Ops
